@@ -1,1 +1,149 @@
+(* C11_Props.v — the property theorems of C11 and nothing else.
+   `run_batch false sv cs` is runTestCasesForServer (as repaired: `break` where the pinned
+   code returned from inside the send loop) for the batch cs under the fault script sv/cs:
+   sv says what the server process does, each case carries what the client runner does
+   for it.  Batches and scripts are ARBITRARY; run_batch is a structurally recursive total
+   function (no fuel), which is the model-level statement of "the batch ends". *)
+From Coq Require Import String.
 From V Require Import C11_Spec C11_Proofs.
+Open Scope nat_scope.
+
+(* exactly one outcome for every case of the batch, none for anything else *)
+Theorem one_outcome_each : forall sv cs n,
+  distinct cs -> well_named cs ->
+  (In n (names cs) -> count n (r_log (run_batch false sv cs)) = 1) /\
+  (~ In n (names cs) -> count n (r_log (run_batch false sv cs)) = 0).
+Proof. exact one_outcome_each_proof. Qed.
+Print Assumptions one_outcome_each.
+
+(* ... and it is the specified one: setup error for the whole batch after a fault before
+   the loop, own verdict before the fault point, the fault's setup error from it on *)
+Theorem outcome_as_specified : forall sv cs i c,
+  distinct cs -> well_named cs -> nth_error cs i = Some c ->
+  final (c_name c) (r_log (run_batch false sv cs)) = Some (expected sv cs i c).
+Proof. exact outcome_as_specified_proof. Qed.
+Print Assumptions outcome_as_specified.
+
+(* affected cases are setup errors: never passes, never plain failures, never missing *)
+Theorem setup_on_fault : forall sv cs i c,
+  distinct cs -> well_named cs -> nth_error cs i = Some c ->
+  prefault sv = true \/ fault_point sv cs <= i ->
+  exists k, final (c_name c) (r_log (run_batch false sv cs)) = Some k /\ is_setup k = true /\
+            k = (if prefault sv then KSetup else fault_kind sv cs).
+Proof. exact setup_on_fault_proof. Qed.
+Print Assumptions setup_on_fault.
+
+(* cases answered before the fault keep the verdict of their own answer — whenever the
+   answer arrives (c_delay) and whatever happens to the others *)
+Theorem keep_verdict : forall sv cs i c,
+  distinct cs -> well_named cs -> nth_error cs i = Some c ->
+  prefault sv = false -> i < fault_point sv cs ->
+  final (c_name c) (r_log (run_batch false sv cs)) = Some (verdict (c_ans c)).
+Proof. exact keep_verdict_proof. Qed.
+Print Assumptions keep_verdict.
+
+(* no hypotheses at all: even with duplicate names in the batch or a client runner that
+   reports results under wrong names, no case of the batch is without an outcome *)
+Theorem never_missing : forall sv cs c,
+  In c cs ->
+  1 <= count (c_name c) (r_log (run_batch false sv cs)) /\
+  final (c_name c) (r_log (run_batch false sv cs)) <> None.
+Proof. exact never_missing_proof. Qed.
+Print Assumptions never_missing.
+
+(* every wait is matched: no callback is outstanding when the function returns *)
+Theorem no_callback_outstanding : forall sv cs, r_pend (run_batch false sv cs) = [].
+Proof. exact no_callback_outstanding_proof. Qed.
+Print Assumptions no_callback_outstanding.
+
+(* the server is asked to stop iff one was started, it is not running at return, and the
+   process ends exactly once (by itself or by the abort), on every path *)
+Theorem stop_requested : forall sv cs,
+  let r := run_batch false sv cs in
+  r_started r = s_start sv /\
+  (s_start sv = true -> 1 <= r_aborts r /\ r_alive r = false /\ r_ends r = 1) /\
+  (s_start sv = false -> r_aborts r = 0 /\ r_ends r = 0).
+Proof. exact stop_requested_proof. Qed.
+Print Assumptions stop_requested.
+
+(* stderr of a reference server: a line is recorded for case n iff it reads "n: m" with n in
+   the batch; every other non-blank line is passed through verbatim, in order; nothing else *)
+Theorem sideband_attribution : forall er sv cs,
+  let r := run_batch er sv cs in
+  (s_start sv = true /\ s_refsrv sv = true ->
+     (forall n m, In (n, m) (r_sbs r) <->
+                  exists line, In line (lines_keep (s_stderr sv)) /\ side_of (names cs) line n m) /\
+     (forall line, In line (r_fwd r) <->
+                  In line (lines_keep (s_stderr sv)) /\ ~ blank line /\ ~ attributed (names cs) line) /\
+     subseq (r_fwd r) (lines_keep (s_stderr sv))) /\
+  (s_start sv = false \/ s_refsrv sv = false -> r_sbs r = [] /\ r_fwd r = []).
+Proof. exact sideband_attribution_proof. Qed.
+Print Assumptions sideband_attribution.
+
+(* ... where the lines are what one expects *)
+Theorem lines_spec : forall s, lines_of s (lines_keep s).
+Proof. exact lines_spec_proof. Qed.
+Print Assumptions lines_spec.
+
+(* the fault point without recursion: k leading cases are accepted, the k-th is not *)
+Theorem sends_ok_spec : forall cs k,
+  sends_ok cs = k <->
+  (forall j c, j < k -> nth_error cs j = Some c -> c_send c = true) /\ k <= length cs /\
+  (forall c, nth_error cs k = Some c -> c_send c = false).
+Proof. exact sends_ok_spec_proof. Qed.
+Print Assumptions sends_ok_spec.
+
+(* ---- non-vacuity ---- *)
+Definition cse (n : string) (ok : bool) (a : ans) (d : nat) : case := mkCase (bs n) ok a d (bs n) [].
+Arguments cse n%string ok a d.
+Definition srv (dead : option nat) : server := mkServer true WOk (RValid false) false dead false false [].
+Definition kinds (r : result) (ns : list bytes) : list (option okind) := map (fun n => final n (r_log r)) ns.
+Definition a := bs "a". Definition b := bs "b". Definition c := bs "c".
+
+(* hypotheses are inhabited *)
+Example ex_hyps : distinct [cse "a" true APass 0; cse "b" true AFail 9] /\ well_named [cse "a" true APass 0; cse "b" true AFail 9].
+Proof. split; [repeat constructor; simpl; intuition discriminate|repeat constructor]. Qed.
+
+(* the server dies after the first send while a's answer is still outstanding: a keeps its
+   own verdict, b and c are setup errors *)
+Example ex_dies_after_1 :
+  kinds (run_batch false (srv (Some 1)) [cse "a" true AFail 9; cse "b" true APass 0; cse "c" true APass 0]) [a; b; c]
+  = [Some KFail; Some KSetup; Some KSetup].
+Proof. vm_compute. reflexivity. Qed.
+
+(* the client pipe breaks at the second send *)
+Example ex_pipe_closed :
+  kinds (run_batch false (srv None) [cse "a" true APass 1; cse "b" false APass 0; cse "c" true APass 0]) [a; b; c]
+  = [Some KPass; Some KCouldNotRun; Some KCouldNotRun].
+Proof. vm_compute. reflexivity. Qed.
+
+(* tie: the dead server is noticed before the refused send *)
+Example ex_tie :
+  kinds (run_batch false (srv (Some 1)) [cse "a" true APass 0; cse "b" false APass 0]) [a; b] = [Some KPass; Some KSetup].
+Proof. vm_compute. reflexivity. Qed.
+
+(* both sides of `affected` occur; TLS without certificate affects everything *)
+Example ex_nocert :
+  kinds (run_batch false (mkServer true WOk (RValid false) true None false false []) [cse "a" true APass 0]) [a] = [Some KSetup].
+Proof. vm_compute. reflexivity. Qed.
+
+(* failRemaining matters: a client that reports a's result under b's name leaves a to it *)
+Example ex_misreport :
+  let r := run_batch false (srv None) [mkCase (bs "a") true APass 0 (bs "b") []; cse "b" true AFail 0] in
+  (kinds r [a; b], count (bs "b") (r_log r)) = ([Some KNoResult; Some KFail], 2).
+Proof. vm_compute. reflexivity. Qed.
+
+(* the pinned code (return from inside the loop) refutes one_outcome_each: a has no outcome
+   at return and its callback is still outstanding — DESIGN.md section 9, #17 *)
+Example pinned_code_refuted :
+  let r := run_batch true (srv (Some 1)) [cse "a" true APass 9; cse "b" true APass 0] in
+  (kinds r [a; b], length (r_pend r)) = ([None; Some KSetup], 1).
+Proof. vm_compute. reflexivity. Qed.
+
+(* side-band: attributed, foreign name, nested ": ", blank, unterminated *)
+Example ex_sideband :
+  let r := run_batch false (mkServer true WOk (RValid false) false None true false
+             (bs "a: m1" ++ [10%N] ++ bs "zz: m2" ++ [10%N] ++ bs "  " ++ [10%N] ++ bs " b: x: y "))
+             [cse "a" true APass 0; cse "b" true APass 0] in
+  (r_sbs r, r_fwd r) = ([(bs "a", bs "m1"); (bs "b", bs "x: y")], [bs "zz: m2" ++ [10%N]]).
+Proof. vm_compute. reflexivity. Qed.
